@@ -5,7 +5,14 @@
  * monitor invariant G (= the in-lock invariant W of C16: accounting cur == sum of counted entries, 0 <= cur <= max, heap and
    table consistent, claims carry 0 bytes): at every acquire the guarded state is havocked and G assumed - other threads may
    have done anything that respects G - and at every release G is proved;
- * the source asserts are obligations under that havoc.
+ * the source asserts are obligations under that havoc;
+ * (GL) a counted entry whose task has completed accounts exactly the length of the contents it caches (#release.GL) - a load that
+   finishes late must not put ITS byte count on an entry that meanwhile belongs to a completed write;
+ * an unfinished write owns its entry (GW): ghost `wtask[f]` = "a write task of f was submitted and has not ended" (its completion
+   handler has not run and it has not failed: the entry's future is not done); GW: wtask[f] => f has an entry and it is flagged writing.  Set where update_file submits the writer, cleared (under the
+   lock) by the writer's completion handler, assumed at every acquire, proved at every release (#release.GW).  Without it a
+   client that removes the entry of a pending write (unload_file) lets a load read the old file next to the write: when everything
+   has finished the cache serves the OLD contents although the update reported success.
 Linearizability of the values returned by get / update is NOT decided (no instrument for interleavings of results here).
 """
 import z3
@@ -47,6 +54,7 @@ def build(reg, src):
         st.env['self'] = fc.mk_cache(st, held=False)
         c16.valid_heap(st, st.field(st.env['self'], 'file_access_times'))
         st.ghost['concurrent'] = lift(True)
+        st.ghost['wtask'] = fs.VArr(z3.Const('wtask0', fc.BoolArr))
 
     not_held = lambda s, *a: VBool(z3.Not(A(s.st, s.self)['held']))
 
@@ -106,10 +114,21 @@ def build(reg, src):
     def wf_full_setup(eng, st):
         wf_setup(eng, st)
         st.ghost['wf_contents'] = st.env['new_file_contents']
+        # this task IS the unfinished write of file_name (update_file set wtask[file_name] when it submitted the task)
+        st.assume(z3.Select(st.ghost['wtask'].t, st.env['file_name'].t))
+
+    def completion_of_the_pending_write(s):
+        # a call with loaded=False is the completion handler of the unfinished write of that file
+        if 'wtask' not in s.st.ghost:
+            return VBool(True)
+        return Implies(Not(loaded_of(s)), VBool(z3.Select(s.st.ghost['wtask'].t, s.file_name.t)))
+    reg.fns[F + 'update_file_futures_and_memory'].requires = list(reg.fns[F + 'update_file_futures_and_memory'].requires) + [completion_of_the_pending_write]
     reg.fn(F + '_write_file', params=dict(file_name=FKey, new_file_contents=Str, use_fsync=Bool), setup=wf_full_setup,
            requires=[not_held, lambda s: len_(s.new_file_contents) <= VInt(A(s.st, s.self)['max'])], returns='opaque', ensures=[not_held])
     from replay import c18 as rp
+    reg.replays.append((r'update_file_futures_and_memory#release\.GL', rp.replay_late_load_accounting))
     reg.replays.append((r'update_file_futures_and_memory#(call|release|assert)', rp.replay_late_load_under_pressure))
+    reg.replays.append((r'unload_file#release|#release\.GW', rp.replay_unload_during_write))
     reg.replays.append((r'update_file_futures_and_memory#assert', rp.replay_unload_during_load))
     reg.replays.append((r'update_file_futures_and_memory#release', rp.replay_double_count))
     reg.replays.append((r'_load_file|update_file_futures_and_memory#post', rp.replay_stale_load))
@@ -118,12 +137,43 @@ def build(reg, src):
     reg.replays.append((r'.', rp.replay_generic))
 
 
+def GW(st, c):
+    """an unfinished write owns its entry, and the future of that entry is not done"""
+    a = A(st, c)
+    fid = sel(a['fid'], fq)
+    return VBool(z3.ForAll([fq], z3.Implies(z3.Select(st.ghost['wtask'].t, fq),
+                                            z3.And(sel(a['dom'], fq), sel(a['writing'], fq), z3.Not(z3.Select(st.ghost['done_ids'].t, fid)),
+                                                   z3.Not(z3.Select(st.ghost['failed_ids'].t, fid))))))
+
+
+def GL(st, c, at=None):
+    """a counted entry whose task has completed accounts exactly the length of the contents it caches (at: one file instead of all)"""
+    a = A(st, c)
+    if at is not None:
+        fid = sel(a['fid'], at)
+        return VBool(z3.Implies(z3.And(sel(a['dom'], at), sel(a['counted'], at), z3.Select(st.ghost['done_ids'].t, fid),
+                                       z3.Not(z3.Select(st.ghost['failed_ids'].t, fid))),
+                                sel(a['bytes'], at) == z3.Length(z3.Select(st.ghost['res_of'].t, fid))))
+    fid = sel(a['fid'], fq)
+    return VBool(z3.ForAll([fq], z3.Implies(z3.And(sel(a['dom'], fq), sel(a['counted'], fq), z3.Select(st.ghost['done_ids'].t, fid),
+                                                   z3.Not(z3.Select(st.ghost['failed_ids'].t, fid))),
+                                            sel(a['bytes'], fq) == z3.Length(z3.Select(st.ghost['res_of'].t, fid)))))
+
+
 def submit_concurrent(eng, st, args, kwargs, node):
     """the task runs on another thread at any later time: here only the future is created"""
     fid = st.ghost['next_fid']
     st.ghost['next_fid'] = fid + 1
     fut = st.alloc('Future', {'__id': fid, '__task': NONE, '__concurrent': lift(True)})
     st.ghost['submitted'] = st.ghost.get('submitted', lift(0)) + 1
+    st.assume(And(Not(st.ghost['done_ids'][fid]), Not(st.ghost['failed_ids'][fid])))      # a future just created is not done
+    fn = args[0] if args else None
+    if 'wtask' in st.ghost and isinstance(fn, VFunc) and (fn.name == '_write_file' or str(fn.key or '').endswith('._write_file')) and len(args) > 1:
+        # one write of a file at a time: a second writer submitted next to an unfinished one races it to the disk, and the one that
+        # loses still reports success
+        eng.oblige(f"{eng.cur_key}#submit-write.no-write-of-the-file-in-flight@{eng.site_ordinal('submitw', node)}", st,
+                   z3.Not(z3.Select(st.ghost['wtask'].t, lift(args[1]).t)), kind='monitor-invariant')
+        st.ghost['wtask'] = st.ghost['wtask'].store(args[1], lift(True))          # an unfinished write of that file exists from now on
     return [(st, fut)]
 
 
@@ -155,12 +205,35 @@ def configure(eng):
         a = A(st, c)
         st.ghost['acq_arrays'] = dict(dom=a['dom'], counted=a['counted'], writing=a['writing'], bytes=a['bytes'], fid=a['fid'], cur=a['cur'])
         st.ghost['acquires'] = st.ghost.get('acquires', lift(0)) + 1
+        if 'wtask' in st.ghost:
+            # other threads submit writes and complete their own; only the owner clears its flag (rely): the flag of the write that
+            # is executing this code survives
+            mine = None
+            if e.cur_key.endswith('FileCache.update_file_futures_and_memory') and 'loaded' in st.env and 'file_name' in st.env:
+                mine = z3.And(z3.Not(e.truth(st.env['loaded'])), z3.Select(st.ghost['wtask'].t, st.env['file_name'].t))
+            new = fs.VArr(z3.Const(fresh_name('wtask'), fc.BoolArr))
+            if mine is not None:
+                st.assume(z3.Implies(mine, z3.Select(new.t, st.env['file_name'].t)))
+            st.ghost['wtask'] = new
+            st.assume(GW(st, c))
+            st.assume(GL(st, c))
 
     def on_release(e, st, lock, node):
         if 'concurrent' not in st.ghost:
             return
         c = st.env['self']
         e.oblige(f"{e.cur_key}#release.G@{e.site_ordinal('release', node)}", st, W(st, c), kind='monitor-invariant', regions=regions(st))
+        if 'wtask' in st.ghost:
+            if e.cur_key.endswith('FileCache.update_file_futures_and_memory') and 'loaded' in st.env and 'file_name' in st.env:
+                # the writer's completion handler: its write is finished when it leaves the critical section
+                w = st.ghost['wtask'].t
+                st.ghost['wtask'] = fs.VArr(z3.If(e.truth(st.env['loaded']), w, z3.Store(w, st.env['file_name'].t, z3.BoolVal(False))))
+            e.oblige(f"{e.cur_key}#release.GW@{e.site_ordinal('releaseGW', node)}", st, GW(st, c), kind='monitor-invariant', regions=regions(st))
+            if 'file_name' in st.env and isinstance(st.env['file_name'], VU):
+                # the instance for the file this call is about (ground: decided at once; the quantified form covers the others)
+                e.oblige(f"{e.cur_key}#release.GL[file_name]@{e.site_ordinal('releaseGL1', node)}", st, GL(st, c, at=st.env['file_name'].t),
+                         kind='monitor-invariant', regions=regions(st))
+            e.oblige(f"{e.cur_key}#release.GL@{e.site_ordinal('releaseGL', node)}", st, GL(st, c), kind='monitor-invariant', regions=regions(st))
     eng.hooks['on_acquire'] = on_acquire
     eng.hooks['on_release'] = on_release
 
@@ -190,8 +263,6 @@ def configure(eng):
                 s2 = s.fork()
                 return [(s, VOpaque(hint='result')), e2.exc(s2, '<any>', n)]
             return [(st, VFunc('result', model=model))]
-        if 'concurrent' in st.ghost and attr == 'done':
-            return [(st, VFunc('done', model=lambda e2, s, a, k, n: [(s, fresh(Bool, 'done'))]))]
         return prev_fm(e, v, attr, st, node)
     eng.hooks['getattr:Future'] = future_method
 
